@@ -148,6 +148,12 @@ fn run(deps: DepsMut, env: &Env, script: &Script, ev: &mut Ev) -> StdResult<Resp
                 resp = resp.add_submessage(sm);
             }
             Step::QueryBalance { tag, addr, denom } => {
+                // "@self" / "@sender": addresses only known when the entry point runs
+                let addr = match addr.as_str() {
+                    "@self" => env.contract.address.to_string(),
+                    "@sender" => ev.sender.as_ref().map(|a| a.to_string()).unwrap_or_default(),
+                    _ => addr.clone(),
+                };
                 let o = match deps.querier.query_balance(addr.clone(), denom.clone()) {
                     Ok(c) => Obs::Num(c.amount),
                     Err(e) => Obs::Err(e.to_string()),
